@@ -412,6 +412,7 @@ func main() {
 			rep.Sample(map[string]any{"program": c.P.awk(), "args": c.Args, "impl": impls[i].line()})
 		}
 	}
+	runLong(rep, o.Tier)
 	rep.Write(outPath)
 }
 
